@@ -24,7 +24,12 @@ META = dict(
     level_note="Reading that demands less, as decided in DESIGN.md: 'calls a function' = invoking a resolved object; what "
                "getattr itself runs (module __getattr__, properties) and objects that forge __class__/__bases__ so that Python's "
                "own isinstance/issubclass call them BaseException subclasses are not planted (recorded as observations in the "
-               "evidence). A stored type name that type() refuses (NUL / surrogate) gives ValueError through the bare "
+               "evidence). Objects that are no classes but answer only PART of the class protocol ARE planted (instances "
+               "answering __bases__ / __mro__ / the class dunders, transparent class proxies around an exception class, objects "
+               "saying __class__ is type in front of a non-exception class; real classes with odd metaclass checks / abc "
+               "registrations): what such an object is, is decided by its type and the MRO slot (driver: true_class), never by what "
+               "it answers, and the statement demands SecurityError without a call for every one of them. "
+               "A stored type name that type() refuses (NUL / surrogate) gives ValueError through the bare "
                "exception_to_python and ValidationError through TaskiqResult: counted as a validation error. A loaded exception "
                "class whose own constructor raises a non-Exception BaseException propagates it: excluded in C20_outcome_plain, "
                "characterised in C20_outcome. pydantic's lax-mode acceptance table (which field values are well-typed) is the "
@@ -64,7 +69,8 @@ META = dict(
                   "ill-typed per field), CPython type() name check, getattr"],
     assumptions=["attribute lookup side effects (module __getattr__ of modules that are not taskiq's own, properties) are outside "
                  "the gate (DESIGN.md scope decision)",
-                 "objects forging __class__/__bases__ are exception classes as far as Python's issubclass is concerned"],
+                 "objects forging BOTH __class__ (-> type) and __bases__ (-> an exception class) are exception classes as far as "
+                 "Python's isinstance + issubclass are concerned (objects forging only one of the two are planted and must be refused)"],
 )
 
 MISSING = "__missing__"
@@ -94,6 +100,24 @@ def auto(ids, kind, **kw):
     return dict(id=ids.unhooked(), kind=kind, auto=True, attrs=[], **kw)
 
 
+# objects that LOOK like classes to issubclass / isinstance / hand-written class tests without being classes (the driver's
+# make_lookalike): instances answering __bases__ (class attribute / instance attribute / property / through a second such
+# object / empty / raising), __mro__, every dunder of the class protocol, transparent class proxies around an exception class;
+# with `__class__` answered as `type` only in front of a class that is no exception class (an object forging __class__ AND
+# exception __bases__ is an exception class as far as Python's own isinstance / issubclass can tell: scope decision)
+LOOKS_EXC = ["bases", "bases", "bases-and-mro", "bases-instance-attr", "bases-deep", "bases-property", "proxy", "proxy",
+             "answers-class-dunders", "bases-empty", "bases-raise-attributeerror", "bases-raise", "mro-only"]
+LOOKS_SPOOF = ["class-spoof", "proxy-class-spoof"]
+CLASS_LOOKS = ["checks-true", "checks-false", "checks-raise", "abc-registered"]
+
+
+def gen_look(r, ids, look=None):
+    look = look or r.choice(LOOKS_EXC * 2 + LOOKS_SPOOF * 3)
+    wraps = r.choice(["object", "dict"]) if look in LOOKS_SPOOF else \
+        r.choice(["Exception", "BaseException", "ValueError", "KeyError", "SystemExit"])
+    return dict(id=ids.hooked(), kind="inst", of="look", look=look, wraps=wraps, callable=True, attrs=[])
+
+
 def gen_obj(r, ids, depth, kind=None):
     kind = kind or r.choice(["exc"] * 5 + ["class"] * 3 + ["func"] * 3 + ["inst"] * 4 + ["module"] * 2)
     sp = dict(id=ids.hooked(), kind=kind, attrs=[])
@@ -104,15 +128,22 @@ def gen_obj(r, ids, depth, kind=None):
         sp["hook"] = r.choice(["new", "meta"]) if isinstance(sp["ctor"], list) else r.choice(["new", "init", "meta"])
         sp["base"] = r.choice(["Exception", "Exception", "BaseException", "ValueError", "KeyError", "SystemExit"])
         nattr = r.choice([0, 0, 1, 2])
+        if r.random() < .1:
+            sp["look"] = r.choice(CLASS_LOOKS)
     elif kind == "class":
         sp["hook"] = r.choice(["new", "init", "meta"])
         nattr = r.choice([0, 1, 2, 3])
+        if r.random() < .15:
+            sp["look"] = r.choice(CLASS_LOOKS)
     elif kind == "func":
         nattr = r.choice([0, 0, 1])
     elif kind == "module":
         nattr = r.randint(2, 5)
     elif kind == "inst":
-        of = r.choice(["plain", "callable", "callable", "exc", "method", "property", "str", "int", "none", "tuple", "dict"])
+        of = r.choice(["plain", "callable", "callable", "exc", "method", "property", "str", "int", "none", "tuple", "dict",
+                       "look", "look"])
+        if of == "look":
+            return gen_look(r, ids)
         sp["of"] = of
         sp["callable"] = of in ("callable", "method")
         nattr = r.choice([0, 1, 2]) if of in ("plain", "callable") else 0
@@ -283,7 +314,8 @@ def core_module(r, ids):
     inner = exc("any")
     holder = dict(id=ids.hooked(), kind="class", hook=r.choice(["new", "init", "meta"]),
                   attrs=[["inner", inner], ["fn", dict(id=ids.hooked(), kind="func", attrs=[])],
-                         ["cls", dict(id=ids.hooked(), kind="class", hook=r.choice(["new", "init", "meta"]), attrs=[])]])
+                         ["cls", dict(id=ids.hooked(), kind="class", hook=r.choice(["new", "init", "meta"]), attrs=[])],
+                         ["traced", gen_look(r, ids)]])
     ecls = dict(id=ids.hooked(), kind="exc", auto=True, ctor="any", hook=r.choice(["new", "init", "meta"]), base="Exception",
                 attrs=[])
     attrs = [["TrapExc", exc("any")], ["Arity", exc(["arity", r.randint(0, 3)])], ["Never", exc("never")],
@@ -293,7 +325,15 @@ def core_module(r, ids):
              ["thing", dict(id=ids.hooked(), kind="inst", of="plain", callable=False, attrs=[])],
              ["err", dict(id=ids.hooked(), kind="inst", of="exc", callable=False, attrs=[["__class__", ecls]])],
              ["part", dict(id=ids.hooked(), kind="module", attrs=[["trapfn", dict(id=ids.hooked(), kind="func", attrs=[])],
-                                                                  ["Deep", exc("any")]])]]
+                                                                  ["Deep", exc("any")]])],
+             # not classes, but they answer the class protocol: a transparent proxy around an exception class, an instance
+             # that claims exception bases, one more of any variant; real classes with an odd metaclass
+             ["TracedError", gen_look(r, ids, "proxy")],
+             ["claims", gen_look(r, ids, r.choice(LOOKS_EXC[:9]))],
+             ["lookalike", gen_look(r, ids)],
+             ["OddMeta", dict(id=ids.hooked(), kind="class", hook=r.choice(["new", "init", "meta"]), look=r.choice(CLASS_LOOKS),
+                              attrs=[])],
+             ["OddMetaError", exc("any", look=r.choice(CLASS_LOOKS))]]
     return dict(id=ids.hooked(), kind="module", attrs=attrs)
 
 
@@ -495,7 +535,8 @@ def gen_node(r, env, paths, entry, depth, cat=None, gx=None):
         mod, path, _sp = r.choice(excs)
         md, ty = mod, ".".join(path)
     elif cat == "nonexc":
-        mod, path, _sp = r.choice(nonexc)
+        looks = [p for p in nonexc if p[2].get("look")] if r.random() < .15 else []
+        mod, path, _sp = r.choice(looks or nonexc)
         md, ty = mod, ".".join(path)          # a module itself: path = [] -> ty "" -> getattr(mod, "") fails -> synthetic
     elif cat == "unres":
         k = r.random()
@@ -962,6 +1003,12 @@ def coverage(rep, c, o):
                 else:
                     rep.count("branch:ctor=" + ("arity-" + ("match" if len(n["args"]["ok"]) == ct[1] else "mismatch")
                                                 if isinstance(ct, list) else ct))
+            if sp.get("look"):
+                what = "class" if sp["kind"] in ("class", "exc") else "not-a-class"
+                rep.count("lookalike:" + what)
+                rep.count("lookalike:%s:%s%s" % (what, sp["look"], ":in-front-of-" + sp["wraps"] if "wraps" in sp else
+                                                 ":exception-class" if sp["kind"] == "exc" else ""))
+                rep.count("lookalike:at=" + ("top" if n is c["raw"] else "nested"))
             if sp["id"] >= TQ_BASE or (n["md"]["ok"] or "").split(".")[0] == "taskiq":
                 rep.count("kind:taskiq-own:" + sp["kind"])
                 if (n["md"]["ok"], ty.split(".")[-1]) == WRAPPER_REF or ty.split(".")[-1] == WRAPPER_REF[1]:
